@@ -1,4 +1,61 @@
-From BS Require Import Model.Slots Proofs.SlotsProofs.
-Theorem C23_placeholder : forall cap n s, sreachable cap n s -> used s <= s_cap s /\ s_cap s = cap /\ length (s_held s) = n.
-Proof. exact slots_bounded. Qed.
-Print Assumptions C23_placeholder.
+(* C23 - Query statistics account for every evaluated block exactly once. *)
+From BS Require Import Model.Stats Model.Cursor Model.HandlePool Model.QueryLTS
+  Proofs.StatsProofs Proofs.CursorProofs Proofs.QueryLTSProofs Proofs.QueryInvProofs Proofs.DeliveryProofs.
+From Coq Require Import List ZArith Bool Arith.
+Import ListNotations.
+Local Open Scope Z_scope.
+
+(* Stats(): the totals are the per-block sums, every entry is counted as processed or skipped *)
+Theorem C23_totals : forall matched l,
+  let s := stats_of matched l in
+  qs_processed s = count_if (fun b => negb (bs_skipped b)) l /\
+  qs_skipped s = count_if bs_skipped l /\
+  qs_rows s = sumZ bs_rows l /\ qs_bytes s = sumZ bs_bytes l /\
+  qs_matched s = matched /\ qs_blocks s = l /\
+  qs_processed s + qs_skipped s = Z.of_nat (length l).
+Proof. exact stats_totals. Qed.
+Print Assumptions C23_totals.
+
+(* in every reachable state of the pipeline, an entry of a pruned block carries zero rows and bytes *)
+Theorem C23_skipped_zero : forall fx cap es s q,
+  reachable fx cap es s -> In q (g_qs s) -> forallb skipped_zero (m_stats (c_m (q_cur q))) = true.
+Proof. exact stats_skipped_zero. Qed.
+Print Assumptions C23_skipped_zero.
+
+(* ... so skipped blocks contribute nothing to RowsScanned / BytesScanned *)
+Theorem C23_skipped_contribute_nothing : forall l,
+  forallb skipped_zero l = true ->
+  sumZ bs_rows l = sumZ bs_rows (filter (fun b => negb (bs_skipped b)) l) /\
+  sumZ bs_bytes l = sumZ bs_bytes (filter (fun b => negb (bs_skipped b)) l).
+Proof. exact skipped_contribute_nothing. Qed.
+Print Assumptions C23_skipped_contribute_nothing.
+
+(* iteration ran to the end of the closed channel: RowsMatched = rows returned *)
+Theorem C23_matched : forall fx s,
+  creachable fx s -> complete s = true -> h_matched (c_h s) = Z.of_nat (length (n_returned (c_n s))).
+Proof. exact matched_complete. Qed.
+Print Assumptions C23_matched.
+
+(* a scan that was not disturbed records RowsProcessed = the block's row count (and every matched row delivered) *)
+Theorem C23_full_rows_scan : forall e r sd w v w' effs j rows bytes,
+  bw_local e r sd w v = Some (w', effs) -> bw_pc w' = BEnded j rows bytes ->
+  (exists todo, bw_pc w = BScan j todo true \/ bw_pc w = BEnding j true todo) ->
+  exists b, job_block e j = Some b /\ scan_todo (bw_pc w) = Some (j, []) /\ rows = b_rows b /\ bytes = b_bytes b.
+Proof. exact clean_scan_delivers_all. Qed.
+Print Assumptions C23_full_rows_scan.
+
+(* Stats is complete once Next has returned false: nothing is recorded after the workers are done *)
+Theorem C23_frozen : forall fx s ls s',
+  m_finished (c_m s) = true -> cursor_steps fx s ls = Some s' ->
+  m_finished (c_m s') = true /\ m_errs (c_m s') = m_errs (c_m s) /\ cur_stats s' = cur_stats s.
+Proof. exact frozen. Qed.
+Print Assumptions C23_frozen.
+
+(* PARTIAL.  Not proved over the composed pipeline (they need the invariant that a block travels file worker ->
+   job channel -> block worker exactly once), but evaluated as predicates on the Stats() of every replayed query:
+     C23_once                - no (file, block offset) twice in BlockStats            [keys_nodup]
+     C23_all_or_none         - for queries not terminated early (internal ctx not cancelled before the workers
+                               were done): all or none of a file's prefilter-surviving blocks   [all_or_none]
+     C23_returned_processed  - the block of every returned row is listed as processed       [returned_listed]
+     C23_full_rows           - on clean completion every processed block has RowsProcessed = TotalRows [full_rows]
+   (Cases/RunnerQ.v, q_violates). *)
